@@ -13,6 +13,7 @@ import FordModel.Lemmas.Graph
 import FordModel.Lemmas.GraphData
 import FordModel.Lemmas.GraphCalls
 import FordModel.Lemmas.GraphCtor
+import FordModel.Lemmas.GraphLabel
 namespace Ford.C13
 open Ford Ford.Graph
 
@@ -735,6 +736,265 @@ example :
       { kind := .proc, visible := false, calls := [3, 4] }, { kind := .proc, visible := false, calls := [2, 5] },
       { kind := .proc }, { kind := .proc }]
     callNodes tab [2] = [5, 4] ∧ callNodes tab [3] = [4, 5] ∧ keep tab 2 = false ∧ keep tab 3 = false := by
+  decide
+
+/-! ## Round 6: the edges that are written (`add_to_graph`) and the labels of composition edges -/
+
+/-- **No edge is invented.**  Every edge of every graph - all twelve classes, any limits, truncated or
+    not - is an edge the class's `add_node` produces for a node drawn in that graph, towards a node drawn
+    in that graph: tail, head *and* style are those of the relation (clause "each graph contains exactly
+    the relation derived from the source", direction "nothing else"). -/
+theorem edges_sound (fx : Bool) (tab : Table) (nd : NodeData) (c : GClass) (roots : List Node) :
+    ∀ e ∈ (graphOf fx tab nd c roots).edges,
+      ∃ n ∈ (graphOf fx tab nd c roots).added, ∃ x ∈ (graphOf fx tab nd c roots).added,
+        (x, e) ∈ succOf tab nd c n := by
+  intro e he
+  have hs : EdgesFrom (cfgOf fx tab nd c roots) (graphOf fx tab nd c roots) :=
+    addNodes_edges_sound _ _ _ _ (by intro e he; simp at he)
+  obtain ⟨n, x, hx⟩ := hs e he
+  obtain ⟨ht, hh⟩ := edges_closed fx tab nd c roots e he
+  rcases succOf_wf tab nd c n x e hx with ⟨h1, h2⟩ | ⟨h1, h2⟩
+  · exact ⟨n, h1 ▸ ht, x, h2 ▸ hh, hx⟩
+  · exact ⟨n, h2 ▸ hh, x, h1 ▸ ht, hx⟩
+
+/-- **No edge is lost.**  Unless `add_to_graph` refused a hop because of `graph_maxnodes`, the graph holds
+    *every* edge `add_node` produces for every node that is closer to the roots than the depth bound
+    (`graph_maxdepth` hops, at least one; the roots only for the project-wide graphs) - every edge, not
+    one per pair of nodes: edges are told apart by tail, head and style, so two relations that join the
+    same two entities are two arrows (clause "... exactly the relation ...", direction "all of it"). -/
+theorem edges_complete (fx : Bool) (tab : Table) (nd : NodeData) (c : GClass) (roots : List Node)
+    (hcut : (graphOf fx tab nd c roots).cutBySize = false) :
+    ∀ d n, d + 1 ≤ (if c.nested then max 1 (cfgOf fx tab nd c roots).maxNesting else 1) →
+      ReachLe (succN (succOf tab nd c)) roots d n →
+      ∀ x e, (x, e) ∈ succOf tab nd c n → e ∈ (graphOf fx tab nd c roots).edges := by
+  intro d n hd hn x e he
+  refine addNodes_edges_complete (cfgOf fx tab nd c roots) roots roots 1 _ (by omega) ?_ ?_ ?_ hcut d n ?_ ?_
+    hn x e he
+  · rintro m ⟨k, hk, hr⟩
+    have : k = 0 := by omega
+    subst this
+    cases hr with
+    | root h => exact mem_dedup.2 h
+  · intro m hm hmn; exact absurd (mem_dedup.1 hm) hmn
+  · intro m hm hmn; exact absurd (mem_dedup.1 hm) hmn
+  · intro hc; simp [cfgOf] at hc; simp [hc, cfgOf] at hd ⊢; exact hd
+  · intro hc; simp [cfgOf] at hc; simp [hc] at hd ⊢; exact hd
+
+/-- ... in particular every edge of the first hop: whatever `add_node` yields for a root is drawn as soon
+    as the hop was accepted (any depth limit, also 0). -/
+theorem root_edges_drawn (fx : Bool) (tab : Table) (nd : NodeData) (c : GClass) (roots : List Node)
+    (hcut : (graphOf fx tab nd c roots).cutBySize = false) (r : Node) (hr : r ∈ roots) :
+    ∀ x e, (x, e) ∈ succOf tab nd c r → e ∈ (graphOf fx tab nd c roots).edges :=
+  edges_complete fx tab nd c roots hcut 0 r (by split <;> omega) ⟨0, by omega, .root hr⟩
+
+/-- **A type that extends `t` and has a component of type `t` shows both relations**: the dashed
+    composition edge and the solid extension edge `a -> t` are both in the type graph / "inherits" graph
+    of `a` (they differ in style, and - `comp_edge_labelled` - the dashed one carries the component names). -/
+theorem extends_and_contains_both_drawn (fx : Bool) (tab : Table) (nd : NodeData) (c : GClass)
+    (hc : c = .type ∨ c = .inherits) (roots : List Node)
+    (hcut : (graphOf fx tab nd c roots).cutBySize = false) (a t : Node) (ha : a ∈ roots)
+    (h1 : t ∈ fwdOf nd a .comp) (h2 : t ∈ fwdOf nd a .ext) :
+    (⟨a, t, .dashed⟩ : Edge) ∈ (graphOf fx tab nd c roots).edges
+      ∧ (⟨a, t, .solid⟩ : Edge) ∈ (graphOf fx tab nd c roots).edges := by
+  constructor
+  · apply root_edges_drawn fx tab nd c roots hcut a ha t
+    rcases hc with rfl | rfl <;>
+      exact List.mem_append.2 (Or.inl (List.mem_map.2 ⟨t, h1, rfl⟩))
+  · apply root_edges_drawn fx tab nd c roots hcut a ha t
+    rcases hc with rfl | rfl <;>
+      exact List.mem_append.2 (Or.inr (List.mem_map.2 ⟨t, h2, rfl⟩))
+
+/-- **A submodule that also USEs its ancestor shows both relations**: the dashed USE edge and the solid
+    ancestry edge `s -> m` are both in the module graph / "uses" graph, and both reversed edges in the
+    "used by" graph of `m` when the inverse sets are consistent. -/
+theorem uses_and_ancestor_both_drawn (fx : Bool) (tab : Table) (nd : NodeData) (c : GClass)
+    (hc : c = .module ∨ c = .uses) (roots : List Node)
+    (hcut : (graphOf fx tab nd c roots).cutBySize = false) (s m : Node) (hs : s ∈ roots)
+    (h1 : m ∈ fwdOf nd s .uses) (h2 : m ∈ fwdOf nd s .anc) :
+    (⟨s, m, .dashed⟩ : Edge) ∈ (graphOf fx tab nd c roots).edges
+      ∧ (⟨s, m, .solid⟩ : Edge) ∈ (graphOf fx tab nd c roots).edges := by
+  constructor
+  · apply root_edges_drawn fx tab nd c roots hcut s hs m
+    rcases hc with rfl | rfl <;>
+      exact List.mem_append.2 (Or.inl (List.mem_map.2 ⟨m, h1, rfl⟩))
+  · apply root_edges_drawn fx tab nd c roots hcut s hs m
+    rcases hc with rfl | rfl <;>
+      exact List.mem_append.2 (Or.inr (List.mem_map.2 ⟨m, h2, rfl⟩))
+
+/-- **The label of a composition edge names exactly the components of that type.**  After the loop of
+    `TypeNode.__init__` (`comp_types[node] += ", " + var.name`) the label stored for the component type
+    `t` names position `i` iff the `i`-th derived-type component is of type `t`: no component is lost
+    when several have the same type, none of another type slips in ... -/
+theorem comp_label_exact (comps : List Node) (t : Node) (i : Nat) :
+    i ∈ labelOf (compLoop comps 0 []) t ↔ comps[i]? = some t := by
+  rw [labelOf_compLoop]; simp [labelOf, mem_posFrom]
+
+/-- ... **in declaration order, each component once**. -/
+theorem comp_label_ordered (comps : List Node) (t : Node) :
+    (labelOf (compLoop comps 0 []) t).Pairwise (· < ·) := by
+  rw [labelOf_compLoop]; simpa [labelOf] using posFrom_sorted comps 0 t
+
+/-- **One composition edge per component type**: the keys of `comp_types` (one dashed edge each in
+    `add_node`) are exactly the types that occur among the components, each once, however many
+    components have that type. -/
+theorem comp_one_edge_per_type (comps : List Node) :
+    (∀ t, t ∈ (compLoop comps 0 []).map Prod.fst ↔ t ∈ comps) ∧ ((compLoop comps 0 []).map Prod.fst).Nodup := by
+  obtain ⟨h1, h2⟩ := keys_compLoop comps 0 []
+  exact ⟨fun t => by simpa using h1 t, h2 (by simp)⟩
+
+/-- **"Inherited by" shows the same label as "inherits"**: the entry `t.comp_of[a]` written by the same
+    loop equals `a.comp_types[t]`, so the dashed edge `a -> t` carries the same component names in the
+    "inherited by" graph of `t` as in the type graph and the "inherits" graph of `a`. -/
+theorem comp_label_inverse (tab : Table) (a t : Node) :
+    edgeLabelBy tab ⟨a, t, .dashed⟩ = edgeLabel tab ⟨a, t, .dashed⟩ := by
+  simp only [edgeLabelBy, edgeLabel, compOf, compTypes]
+  split
+  · rw [compOfLoop_eq, labelOf_compLoop]; simp [labelOf]
+  · simp [labelOf]
+
+/-- **Every composition edge is labelled, no other edge is**: the type `a` is linked to `t` by
+    composition (`relation_exact`: that is the dashed edge of its graphs) iff the label stored for `t` is
+    not empty; extension edges (solid) have no label. -/
+theorem comp_edge_labelled (tab : Table) (a t : Node) (hk : (ent tab a).kind = .type) :
+    ((Rel.comp, t) ∈ targets tab a ↔ edgeLabel tab ⟨a, t, .dashed⟩ ≠ [])
+      ∧ edgeLabel tab ⟨a, t, .solid⟩ = [] := by
+  refine ⟨?_, rfl⟩
+  simp only [targets, hk, edgeLabel, compTypes]
+  by_cases hx : (ent tab a).extUrl = true
+  · simp [hx, labelOf]
+  · have hx' : (ent tab a).extUrl = false := by simpa using hx
+    simp only [hx', Bool.false_eq_true, if_false, List.mem_append, List.mem_map, Prod.mk.injEq]
+    have hpos : posFrom (ent tab a).comps 0 t ≠ [] ↔ t ∈ (ent tab a).comps := by
+      constructor
+      · intro h
+        obtain ⟨j, hj⟩ := List.exists_mem_of_ne_nil _ h
+        exact List.mem_of_getElem? ((mem_posFrom _ _ _ _).1 hj).2
+      · intro h hn
+        obtain ⟨j, hj⟩ := List.getElem?_of_mem h
+        have : j ∈ posFrom (ent tab a).comps 0 t := (mem_posFrom _ _ _ _).2 ⟨by omega, by simpa using hj⟩
+        rw [hn] at this; simp at this
+    have hc : (Kind.type == Kind.type && !false) = true := by decide
+    rw [if_pos hc, labelOf_compLoop]
+    simp only [labelOf, List.nil_append, hpos]
+    constructor
+    · rintro (⟨x, _, h, _⟩ | ⟨x, hx, _, rfl⟩)
+      · cases h
+      · exact hx
+    · intro h; exact Or.inr ⟨t, h, trivial, rfl⟩
+
+/-- non-vacuity (round 6): type `0` extends type `1` and has the components `c0 : 1`, `c1 : 2`, `c2 : 1`:
+    its "inherits" graph holds the dashed and the solid edge to `1`, the dashed one is labelled with the
+    positions 0 and 2, the edge to `2` with position 1, and "inherited by" reads the same label. -/
+example :
+    let tab : Table := [{ kind := .type, anc := some 1, comps := [1, 2, 1], maxDepth := 2, maxNodes := 10 },
+      { kind := .type }, { kind := .type }]
+    (graphAll false false tab [0, 1, 2]).perEntity.any (fun (e, c, g) =>
+      e == 0 && c == .inherits && g.edges.contains ⟨0, 1, .dashed⟩ && g.edges.contains ⟨0, 1, .solid⟩
+        && g.edges.length == 3) = true
+    ∧ edgeLabel tab ⟨0, 1, .dashed⟩ = [0, 2] ∧ edgeLabel tab ⟨0, 2, .dashed⟩ = [1]
+    ∧ edgeLabelBy tab ⟨0, 1, .dashed⟩ = [0, 2] ∧ compTypes tab 0 = [(1, [0, 2]), (2, [1])] := by
+  refine ⟨by decide +kernel, by decide, by decide, by decide, by decide⟩
+
+/-! ## Round 6: the labels of procedure nodes (`show_proc_parent`) -/
+
+/-- **With `show_proc_parent` two different procedures never look the same.**  The label of a procedure
+    node (`ProcNode.__init__`) is built from the name of its scope, the name of the type it is bound to
+    and its own name; for Fortran names (no `:`, no `%`) the label determines all three, so two nodes
+    of a picture, two rows of the table fall-back, that show the same text are the same procedure
+    (quantifier "x show_proc_parent": what the option adds is exactly what tells `run` of module `a`
+    from `run` of module `b`). -/
+theorem proc_label_injective (i j : LabelIn) (hi : i.clean = true) (hj : j.clean = true)
+    (h : procLabel true i = procLabel true j) : i = j := by
+  rw [← decodeLabel_procLabel i hi, ← decodeLabel_procLabel j hj, h]
+
+/-- what the option adds: the scope's name and `::` in front of the label without it ... -/
+theorem proc_label_shows_parent (i : LabelIn) (p : Str) (hp : i.parent = some p) :
+    procLabel true i = p ++ [':', ':'] ++ procLabel false i := by
+  simp [procLabel, parentLabel, hp]
+
+/-- ... nothing for a procedure that has no scope (known by name only), and the label always ends with
+    the procedure's own name. -/
+theorem proc_label_shows_name (sp : Bool) (i : LabelIn) :
+    (i.parent = none → procLabel sp i = procLabel false i)
+      ∧ ∃ pre, procLabel sp i = pre ++ i.name := by
+  constructor
+  · intro hp; simp [procLabel, parentLabel, hp]
+  · exact ⟨parentLabel sp i ++ bindingLabel i, by simp [procLabel]⟩
+
+/-- **Without the option (partial)**: the label still determines the type a procedure is bound to and its
+    name - but not its scope: excluded is exactly the case of two procedures of the same name (and type) in
+    different scopes, see `proc_label_ambiguous_witness`. -/
+theorem proc_label_plain_partial (i j : LabelIn) (hi : i.clean = true) (hj : j.clean = true)
+    (h : procLabel false i = procLabel false j) : i.binder = j.binder ∧ i.name = j.name := by
+  have e : ∀ k : LabelIn, procLabel false k = procLabel true { k with parent := none } := by
+    intro k; cases hk : k.parent <;> simp [procLabel, parentLabel, bindingLabel, hk]
+  have c : ∀ k : LabelIn, k.clean = true → ({ k with parent := none } : LabelIn).clean = true := by
+    intro k hk
+    simp only [LabelIn.clean, Bool.and_eq_true] at hk ⊢
+    exact ⟨⟨hk.1.1, by simp⟩, hk.2⟩
+  rw [e i, e j] at h
+  have := proc_label_injective _ _ (c i hi) (c j hj) h
+  simp only [LabelIn.mk.injEq] at this
+  exact ⟨this.2.2, this.1⟩
+
+/-- Witness: `run` of module `a` and `run` of module `b` carry the same label unless `show_proc_parent`
+    is on - so nothing that handles the nodes of a graph may identify them by their label. -/
+theorem proc_label_ambiguous_witness :
+    let i : LabelIn := { name := "run".toList, parent := some "a".toList }
+    let j : LabelIn := { name := "run".toList, parent := some "b".toList }
+    i ≠ j ∧ procLabel false i = procLabel false j ∧ procLabel true i ≠ procLabel true j
+      ∧ procLabel true { name := "go".toList, parent := some "m".toList, binder := some "t".toList } = "m::t%go".toList := by
+  decide
+
+/-! ## Round 6: the table fall-back - rows against the cell of the root -/
+
+/-- **The root's cell spans all the rows of the table (partial).**  A graph shown as a table has one row
+    (two `<tr>`) per kept edge of the refused first hop, and the cell of the root is given a `rowspan`.
+    For the code as it is the span covers the rows exactly when every entity one step away is joined to
+    the root by *one* edge and the root has no edge to itself.  Excluded by the decidable hypotheses `hd`,
+    `hr`: two relations to the same entity (a type that extends `t` and has a component of type `t`, a
+    procedure reached by a call and by an interface edge) and self-loops (recursion) - finding
+    `C13-table-rootspan`, see `table_root_span_witness`. -/
+theorem table_root_span_partial (fx : Bool) (tab : Table) (nd : NodeData) (c : GClass) (r : Node)
+    (h : shownOf fx tab nd c [r] = .table)
+    (hd : ((succOf tab nd c r).map Prod.fst).Nodup) (hr : r ∉ (succOf tab nd c r).map Prod.fst) :
+    rootSpan false (graphOf fx tab nd c [r]) = tableTrs (graphOf fx tab nd c [r]) + 1 := by
+  obtain ⟨_, _, _, h4, h5, _⟩ := table_shows_first_hop fx tab nd c [r] h
+  have hc : cands (cfgOf fx tab nd c [r]).succ [r] = succOf tab nd c r := by simp [cands, cfgOf]
+  have hl := hop_lengths_eq (cfg := cfgOf fx tab nd c [r]) (added := dedup [r]) (nodes := [r])
+    (by rw [hc]; exact hd)
+    (by rw [hc]; intro x hx hxr; simp [dedup] at hxr; subst hxr; exact hr hx)
+  simp only [rootSpan, tableTrs, h4, h5, hl]
+  simp
+
+/-- whatever the hop looks like, the code as it is never spans too many rows - when the span is wrong it
+    is short, and the rows below it slide into the root's column ... -/
+theorem table_root_span_short (fx : Bool) (tab : Table) (nd : NodeData) (c : GClass) (roots : List Node)
+    (h : shownOf fx tab nd c roots = .table) :
+    rootSpan false (graphOf fx tab nd c roots) ≤ tableTrs (graphOf fx tab nd c roots) + 1 := by
+  obtain ⟨_, _, _, h4, h5, _⟩ := table_shows_first_hop fx tab nd c roots h
+  have := hop_length_le (cfg := cfgOf fx tab nd c roots) (added := dedup roots) (nodes := roots)
+  simp only [rootSpan, tableTrs, h4, h5]
+  simp; omega
+
+/-- ... with fixes/C13-table-rootspan.diff (span computed from the edges the rows are written for) there is
+    no excluded class. -/
+theorem table_root_span_fixed (g : GState) : rootSpan true g = tableTrs g + 1 := by
+  simp [rootSpan, tableTrs]
+
+/-- Witness for the excluded class: type `0` extends type `1` and has a component of type `1`,
+    `graph_maxnodes: 1`: its "inherits" graph is shown as a table of two rows (four `<tr>`), the root's
+    cell spans three. -/
+theorem table_root_span_witness :
+    let tab : Table := [{ kind := .type, anc := some 1, comps := [1], maxDepth := 2, maxNodes := 1 }, { kind := .type }]
+    let nd : NodeData := { created := [0, 1], fwd := [⟨0, .ext, 1⟩, ⟨0, .comp, 1⟩], inv := [⟨1, .ext, 0⟩, ⟨1, .comp, 0⟩] }
+    shownOf false tab nd .inherits [0] = .table
+      ∧ tableTrs (graphOf false tab nd .inherits [0]) = 4
+      ∧ rootSpan false (graphOf false tab nd .inherits [0]) = 3
+      ∧ rootSpan true (graphOf false tab nd .inherits [0]) = 5 := by
+  have hg : ∀ tab nd, graphOf false tab nd .inherits [0] = runGraph (cfgOf false tab nd .inherits [0]) [0] := fun _ _ => rfl
+  simp only [shownOf, hg]
+  rw [runGraph, addNodes]
   decide
 
 end Ford.C13
